@@ -14,8 +14,8 @@ import vlib
 
 META = {
     "category": "proof",
-    "text": "Coq theorems (Table/Props_C10.v) over an executable model of sst/src/block.rs and the SST layer of sst/src/lib.rs, for all entry sequences, all restart intervals / block sizes and all finite cursor programs; the model is tied to the code by 3-way differential runs (Rust vs extracted model vs the specification computed in Python: reference cursor, point lookup, metadata, setsum, builder rejections, multi-builder concatenation), with byte-for-byte comparison of sealed blocks and of file sizes.",
-    "note": "Trusted: Coq kernel; tools/constants.py; ExtrOcamlBasic extraction + ocaml/table driver; harness c10; record sizes / BlockMetadata codec enter the theorems as section variables with stated hypotheses (positivity, round trip), instantiated by the real prototk arithmetic that the correspondence compares byte for byte; CRC32C, SipHash and SHA3 are not modelled (any function); table-full (1 GiB) is proved in the model but not reachable by the correspondence.",
+    "text": "Coq theorems (Table/Props_C10.v, 15 theorems, all closed under the global context) over an executable model of sst/src/block.rs, sst/src/sbbf.rs and the SST layer of sst/src/lib.rs, for all entry sequences, all restart intervals (0 included) / target block sizes / bloom sizes and all finite cursor programs: BlockCursor and SstCursor refine the reference cursor (seek/next/prev through restart points, the reverse cache and block hopping), Block::load and Sst::load return the newest version not newer than the timestamp or its tombstone (bloom filter without false negatives for any hash), Sst::metadata is exact, divide_keys stays in [lhs, rhs) without tripping an assert, builders accept exactly the in-order, in-size input and reject the rest from checks that precede every mutation, the multi-builder's tables concatenate to the accepted input; the model is tied to the code by 3-way differential runs (Rust vs extracted model vs the specification computed in Python), with byte-for-byte comparison of sealed blocks, of file sizes and of file counts.",
+    "note": "Trusted: Coq kernel; tools/constants.py; ExtrOcamlBasic extraction + ocaml/table driver; harness c10; record sizes / BlockMetadata codec / item hash enter the theorems as section variables with stated hypotheses (positive and bounded size, decode(encode)=id, short encoding), proved for the prototk instance on the u64 range; the step from `record at byte offset` to real bytes is by correspondence (block bytes compared byte for byte), not by a codec proof; CRC32C, SipHash and SHA3 are arbitrary functions; table-full (1 GiB) is covered by the theorems only. Models the repaired code: fix: 23addcc (empty block/SST), a9a83c0 (restart interval 0), de09506 (multi-builder sort order across cuts).",
 }
 
 PROPS = "theories/Table/Props_C10.v"
@@ -387,7 +387,7 @@ def spec_tokens(spec, case):
     if case["kind"] == "B":
         return rej + ["seal:ok", "bytes:?"] + spec.run_prog(acc, case["prog"]), acc
     if case["kind"] == "S":
-        return rej + ["seal:ok", "meta:" + spec.meta(acc) + ":?"] + spec.run_prog(acc, case["prog"]), acc
+        return rej + ["seal:ok", "meta:" + spec.meta(acc) + ":?", "f:?"] + spec.run_prog(acc, case["prog"]), acc
     return rej + ["seal:ok", "files:?"], acc
 
 
@@ -465,11 +465,59 @@ def compare_spec(spec, case, impl_toks):
     return None
 
 
+def parse_sst_file(b):
+    """frames of an SST file: [(tag, payload)] up to the final block; raises on a malformed layout"""
+    final_off = int.from_bytes(b[-8:], "little")
+    pos, frames = 0, []
+    while pos < final_off:
+        tag = b[pos]
+        pos += 1
+        n, shift = 0, 0
+        while True:
+            x = b[pos]
+            pos += 1
+            n |= (x & 0x7f) << shift
+            shift += 7
+            if x < 0x80:
+                break
+        frames.append((tag, b[pos:pos + n]))
+        pos += n
+    if pos != final_off:
+        raise ValueError("frames end at %d, final block at %d" % (pos, final_off))
+    return frames
+
+
+def compare_file(impl_tok, model_tok, stats):
+    """the file the implementation wrote against the model: frame layout (data blocks, index
+    block, filter block, final block) and the bytes of the bloom filter"""
+    if impl_tok == "f:-":
+        return None
+    try:
+        frames = parse_sst_file(bytes.fromhex(impl_tok[2:]))
+    except (ValueError, IndexError) as ex:
+        return "file layout: %s" % ex
+    tags = [t for t, _ in frames]
+    if len(tags) < 2 or tags[-1] != 106 or any(t != 82 for t in tags[:-1]):
+        return "file layout: frame tags %s" % tags
+    stats["files_parsed"] = stats.get("files_parsed", 0) + 1
+    if frames[-1][1].hex() != model_tok[2:]:
+        return "bloom filter bytes differ: impl %s model %s" % (frames[-1][1].hex()[:80], model_tok[2:82])
+    return None
+
+
+FILE_STATS = {}
+
+
 def compare_model(case, impl_toks, model_toks):
     """impl vs model, everything except the setsum digest"""
     if len(impl_toks) != len(model_toks):
         return "token count impl %d model %d" % (len(impl_toks), len(model_toks))
     for a, b in zip(impl_toks, model_toks):
+        if a.startswith("f:") and b.startswith("f:"):
+            e = compare_file(a, b, FILE_STATS)
+            if e:
+                return e
+            continue
         if a.startswith("meta:") and b.startswith("meta:"):
             ca, _ = canon_meta(a)
             cb, _ = canon_meta(b)
@@ -681,20 +729,22 @@ def run(chk):
         "samples": [cases[gen0][("impl")][:500], cases[-1]["impl"][:500]],
         "input_distribution": dict(stats, entries_total=nentries, rejections=rej_kinds),
         "corpus_cases": ncorpus, "exhaustive_small_scope_cases": exhaustive, "exhaustive": bool(exhaustive),
-        "correspondence": "impl (Rust sst crate, release + overflow-checks + debug-assertions) vs extracted Coq model (block bytes, file sizes, file counts, every observation) vs the specification in Python (reference cursor, lookup, metadata, setsum via hashlib SHA3-256), 3-way",
+        "files_parsed_and_filter_compared": FILE_STATS.get("files_parsed", 0),
+        "correspondence": "impl (Rust sst crate, release + overflow-checks + debug-assertions) vs extracted Coq model (block bytes, file sizes, file counts, frame layout and bloom filter bytes of files up to 4 KiB, every observation) vs the specification in Python (reference cursor, lookup, metadata, setsum via hashlib SHA3-256), 3-way",
         "disagreements_impl_vs_spec": len(prop_bad), "disagreements_impl_vs_model": len(corr_bad),
         "disagreements_model_vs_spec": len(model_spec_bad),
         "trusted_base": [
             "Coq 8.16.1 kernel (coqc, full .vo build)",
             "tools/constants.py (MAX_KEY_LEN, MAX_VALUE_LEN, TABLE_FULL_SIZE, BLOCK_METADATA_MAX_SZ, bloom SALT/KEY re-extracted from sst/src on every run); MAX_KEY and FINAL_BLOCK_MAX_SZ are retyped in ModelSst.v (the translator cannot read them) and are exercised by the file-size / approximate-size comparison",
             "extraction via ExtrOcamlBasic (no Extract Constant of ours) + ocaml/table/mx_table.ml driver",
-            "harness/src/bin/c10.rs; the Python specification in checks/c10.py; hashlib SHA3-256; a Python SipHash-2-4 (only feeds the model's filter, which no observation depends on)",
+            "harness/src/bin/c10.rs; the Python specification in checks/c10.py; hashlib SHA3-256; a Python SipHash-2-4 (feeds the model's filter; validated on every run by the byte comparison of the filter blocks)",
             "record size enc_size, BlockMetadata codec and the item hash are section variables; theorems assume positivity of enc_size and decode(encode)=id of the metadata codec; CRC32C, SHA3 and SipHash are arbitrary functions",
         ],
     })
     chk.assumptions = [
-        "enc_size (byte length of a KeyValueEntry record) is positive; the model instance uses the prototk arithmetic, compared byte for byte with the implementation",
-        "meta_dec (meta_enc s l) = Some (s, l) for the BlockMetadata codec (proved for the instance used by the correspondence)",
+        "enc_size (byte length of a KeyValueEntry record) is positive (and, for the acceptance theorems, bounded on records made from checked entries); proved for the prototk arithmetic (C10_real_instance_ok), which is compared byte for byte with the implementation",
+        "meta_dec (meta_enc s l) = Some (s, l) for the BlockMetadata codec: proved for the prototk codec on offsets below 2^64 (C10_real_instance_ok); byte offsets in a table are below 2^31",
+        "keys are byte strings (every element < 256) and timestamps fit a u64 where the theorems say keys_ok / ts_ok",
         "CRC32C never fails on undamaged files (damage is C09's subject); SHA3-256 / SipHash-2-4 are arbitrary functions",
         "table-full (approximate size >= 1 GiB - 64 MiB) is covered by the theorems only; the correspondence cannot reach it",
     ]
